@@ -26,7 +26,18 @@ Fraction = fractions.Fraction
 
 
 class Inconclusive(Exception):
-    """The check cannot be decided (solver 'unknown', divergence, concretisation...)."""
+    """The check cannot be decided (solver 'unknown', divergence, concretisation...).
+    The code under test (or asyncio) may swallow it, so it is also remembered in the environment
+    (env.poisoned) and re-raised by the explorer when the path ends."""
+
+    def __init__(self, *args):
+        super().__init__(*args)
+        env = CUR
+        if env is not None and getattr(env, 'poisoned', None) is None:
+            try:
+                env.poisoned = self
+            except Exception:
+                pass
 
 
 class Diverged(Inconclusive):
@@ -621,6 +632,7 @@ class SymEnv:
         self.violations = []
         self.floor_cache = {}
         self.solver_decided = 0
+        self.poisoned = None
 
     # -- solver --
     def _check(self, *extra):
@@ -1007,6 +1019,8 @@ def explore(scenario, params, *, max_paths=None, max_violations=3, deadline=None
         CUR = env
         try:
             scenario(env, **params)
+            if getattr(env, 'poisoned', None) is not None:
+                raise env.poisoned
             stats.paths += 1
             if len(samples) < collect_samples:
                 try:
@@ -1018,6 +1032,8 @@ def explore(scenario, params, *, max_paths=None, max_violations=3, deadline=None
         except PathAbort:
             stats.aborted += 1
         except ViolationFound as v:
+            if getattr(env, 'poisoned', None) is not None:
+                raise env.poisoned
             stats.paths += 1
             if v.label not in seen_labels or len(violations) < max_violations:
                 seen_labels.add(v.label)
@@ -1032,6 +1048,8 @@ def explore(scenario, params, *, max_paths=None, max_violations=3, deadline=None
         except Inconclusive:
             raise
         except Exception as err:      # unexpected exception inside the scenario
+            if getattr(env, 'poisoned', None) is not None:
+                raise env.poisoned
             stats.paths += 1
             try:
                 m = env.model()
@@ -1160,8 +1178,8 @@ def replay_pinned(scenario, params, model):
     return env.failures, exc, env
 
 
-class _Alarm(BaseException):
-    pass
+class _Alarm(KeyboardInterrupt):
+    """asyncio re-raises KeyboardInterrupt from callbacks and tasks instead of swallowing it"""
 
 
 def replay(scenario, params, model, timeout_s=60):
